@@ -156,6 +156,19 @@ def replay_aligned_lists(p):
             "observed": "population %r weights %r" % (pop, w)}
 
 
+@register("program_position")
+def replay_program_position(p):
+    """the compiled experiment at a given hash position (deterministic_proba substituted: the documented observation
+    point of C03) must return one of the labels the declared weights allow there"""
+    from pyab_experiment.experiment_evaluator import ExperimentEvaluator
+    fields = {k: dec(v) for k, v in p["fields"].items()}
+    allowed = dec(p["allowed"])
+    ev = ExperimentEvaluator(p["text"])
+    o = _with_position(p["position_k"], lambda: outcome_of(lambda: ev(**fields)))
+    ok = o[0] == "value" and any(type(o[1]) is type(a) and o[1] == a for a in allowed)
+    return {"reproduced": not ok, "expected": "one of %r at hash position %d" % (allowed, p["position_k"]), "observed": show(o)}
+
+
 @register("monotone")
 def replay_monotone(p):
     """A unit at hash position k must not move to a later group when no leading cumulative
